@@ -1059,6 +1059,83 @@ let run_c14 c =
     end
   | _ -> ()
 
+(* ---------------- multilinear_pc ---------------- *)
+let run_mlpc c =
+  let fo = fo () in
+  let one = tof Z.one in
+  let nv = int1 c "num_vars" and snv = int1 c "supported" in
+  if nv = 0 then obs1 "setup" "S" "panic"
+  else if not (has c "t") then obs1 "setup" "S" "ok"
+  else begin
+    let t = fs_of c "t" in
+    match MLPC.ml_setup fo (nat_of_int nv) one one t with
+    | Result.Ok pp ->
+      obs1 "setup" "S" "ok";
+      obs "pp_shape" "N" [ string_of_int nv; string_of_int (List.length pp.MLPC.mp_pg); string_of_int (List.length pp.MLPC.mp_ph);
+                          string_of_int (List.length pp.MLPC.mp_mask) ];
+      obs "pp_table_lens" "N" (List.map (fun l -> string_of_int (List.length l)) pp.MLPC.mp_pg);
+      if nv <= 6 then begin
+        obs "pp_g" "R:base_g" (fs_to (List.concat pp.MLPC.mp_pg));
+        obs "pp_h" "R:base_h" (fs_to (List.concat pp.MLPC.mp_ph))
+      end else obs "pp_g0" "R:base_g" (fs_to (List.hd pp.MLPC.mp_pg));
+      obs "pp_mask" "R:base_g" (fs_to pp.MLPC.mp_mask);
+      (match MLPC.ml_trim fo pp (nat_of_int snv) with
+       | Result.Ok ck ->
+         obs1 "trim" "S" "ok"; obs1 "trim_faithful" "S" "yes";
+         let n = int1 c "n" in
+         for i = 0 to n - 1 do
+           let k x = Printf.sprintf "%s.%d" x i in
+           let pnv = int1 c (k "pnv") in
+           let f = fs_of c (k "poly") in
+           let z = if has c (k "z") then fs_of c (k "z") else [] in
+           let delta = f_of_str (str1 c (k "delta")) in
+           let cm = MLPC.ml_commit fo ck (nat_of_int pnv) f in
+           obs1 (k "commit") "S" (class_of cm);
+           (match cm with
+            | Result.Ok cv ->
+              obs1 (k "c") "R:base_g" (f_to_str cv);
+              obs1 (k "c_nv") "N" (string_of_int pnv);
+              List.iter (fun (tag, g1, g2) ->
+                  let sc = Sizes.mlpc_commitment_size (Z.of_int g1) in
+                  obs1 (Printf.sprintf "size.comm.%d.%s" i tag) "N" (Z.to_string sc);
+                  obs1 (Printf.sprintf "bytes.comm.%d.%s" i tag) "N" (Z.to_string sc);
+                  ignore g2) [ ("c", 48, 96); ("u", 96, 192) ];
+              let op = MLPC.ml_open fo ck (nat_of_int pnv) f z in
+              obs1 (k "open") "S" (class_of op);
+              (match op with
+               | Result.Ok pf ->
+                 obs (k "pi") "R:base_h" (fs_to pf);
+                 List.iter (fun (tag, g2) ->
+                     let sp = Sizes.mlpc_proof_size (Z.of_int g2) (Z.of_int (List.length pf)) in
+                     obs1 (Printf.sprintf "size.proof.%d.%s" i tag) "N" (Z.to_string sp);
+                     obs1 (Printf.sprintf "bytes.proof.%d.%s" i tag) "N" (Z.to_string sp)) [ ("c", 96); ("u", 192) ];
+                 if List.length z >= snv then begin
+                   let v = MLPC.mle_eval fo f (List.filteri (fun j _ -> j < pnv) z) in
+                   obs1 (k "v") "F" (f_to_str v);
+                   let chk value p = decision (MLPC.ml_check fo ck cv z value p) in
+                   obs1 (k "check") "S" (chk v pf);
+                   obs1 (k "check_bad") "S" (chk (fo.Field.fadd v delta) pf);
+                   (match pf with
+                    | p0 :: rest ->
+                      let j = i mod List.length pf in
+                      obs1 (Printf.sprintf "mut.tamper.%d" i) "S" (chk v (List.mapi (fun jj x -> if jj = j then fo.Field.fadd x one else x) pf));
+                      (match rest with
+                       | p1 :: rest' when not (Z.equal (ofz p0) (ofz p1)) -> obs1 (Printf.sprintf "mut.swap.%d" i) "S" (chk v (p1 :: p0 :: rest'))
+                       | _ -> ());
+                      let rev = List.rev pf in
+                      if not (Z.equal (ofz (List.hd rev)) Z.zero) then
+                        obs1 (Printf.sprintf "mut.truncate.%d" i) "S" (chk v (List.rev (List.tl rev)))
+                    | [] -> ());
+                   if has c (k "z2") then obs1 (k "check_other_point") "S" (decision (MLPC.ml_check fo ck cv (fs_of c (k "z2")) v pf))
+                 end
+               | _ -> ())
+            | _ ->
+              obs1 (k "open") "S" (class_of (MLPC.ml_open fo ck (nat_of_int pnv) f z)))
+         done
+       | r -> obs1 "trim" "S" (class_of r))
+    | r -> obs1 "setup" "S" (class_of r)
+  end
+
 let () =
   let file = Sys.argv.(1) in
   let ic = open_in file in
@@ -1077,6 +1154,7 @@ let () =
           | "c08" -> run_c08 c
           | "c09" -> run_c09 c
           | "c15" -> run_c15 c
+          | "mlpc" -> run_mlpc c
           | "c14" -> run_c14 c
           | _ -> () (* not modelled: the library run is judged by the implementation-level oracle only *))
        with e -> obs1 "runner_exception" "S" (String.map (fun ch -> if ch = ' ' then '_' else ch) (Printexc.to_string e)));
